@@ -22,6 +22,8 @@ void verif_glue_ctors(void);
 void verif_glue_init(void);
 void verif_glue_final(void);
 void verif_glue_main(void);
+void verif_glue_stuck(void);
+extern const int verif_glue_has_stuck;
 int verif_glue_thread_step(int t);
 extern const int verif_glue_nthreads;
 
@@ -399,6 +401,9 @@ int main(int argc, char** argv)
 #ifdef VERIF_WITNESS
         VERIF_ASSERT(0, "witness: end of scenario reached");
 #endif
+#ifdef VERIF_COVER
+        VERIF_ASSERT(!verif_cover_hit[VERIF_COVER], "cover point reached");
+#endif
 #if VERIF_CONCRETE
         verif_concrete_finish("PASS", "");
 #endif
@@ -438,6 +443,15 @@ int main(int argc, char** argv)
         stuck = 0;
     }
     if (verif_changed || exhausted) stuck = 0;
+    if (!alld && stuck && verif_glue_has_stuck)
+    {
+        /* scenario-specific judgement of a quiescent-but-unfinished state (e.g. an acquirer may stay blocked
+           legitimately when no permit is left) */
+        verif_cur = VERIF_NT;
+        verif_budget = 0x7fffffff;
+        verif_glue_stuck();
+        stuck = 0;
+    }
     VERIF_ASSERT(alld || !stuck, "stuck: unfinished threads are blocked/spinning and a full round changed nothing (deadlock or lost wake-up)");
 #if VERIF_CONCRETE
     if (!alld) verif_concrete_finish(stuck ? "FAIL" : "OUT-OF-ROUNDS", stuck ? "stuck" : "");
